@@ -55,3 +55,21 @@ Theorem C04_from_dmrs : forall d choice m, mrs_from_dmrs d choice = Some m ->
         scope_label d choice (classes d lq) t = Some l /\ In (h, QEQ, l) (m_hcons m)).
 Proof. exact from_dmrs_spec. Qed.
 Print Assumptions C04_from_dmrs.
+
+(* the two conversions keep predicates and constants, in order, both ways round *)
+Theorem C04_roundtrip_rels : forall m d choice m',
+  dmrs_from_mrs m = COk d -> mrs_from_dmrs d choice = Some m' ->
+  map (fun e => (e_pred e, e_carg e)) (m_rels m') = map (fun e => (e_pred e, e_carg e)) (m_rels m).
+Proof. exact roundtrip_rels_basic. Qed.
+Print Assumptions C04_roundtrip_rels.
+
+Theorem C04_roundtrip_nodes : forall d choice m d', roles_ok d = true ->
+  mrs_from_dmrs d choice = Some m -> dmrs_from_mrs m = COk d' ->
+  map (fun n => (dn_pred n, dn_carg n)) (d_nodes d') = map (fun n => (dn_pred n, dn_carg n)) (d_nodes d).
+Proof. exact roundtrip_nodes_basic. Qed.
+Print Assumptions C04_roundtrip_nodes.
+
+(* links made from an MRS never use the ARG0 or CARG role (the hypothesis above) *)
+Theorem C04_links_roles : forall m d, dmrs_from_mrs m = COk d -> roles_ok d = true.
+Proof. exact from_mrs_roles_ok. Qed.
+Print Assumptions C04_links_roles.
